@@ -28,7 +28,7 @@ RULE = (
     "every answer of the random source: terminates within #operations steps, complete and "
     "feasible, every selection best in its state. (metadata) solver(instance) under an owned "
     "clock: elapsed_time == t1 - t0 >= 0 for every enumerated clock increment, solved_by == "
-    "class name. Case = one (state, rule) evaluation or one solver run; non-trivial = state "
+    "class name. For deterministic configurations solve(instance) and solve(instance, dispatcher) on a dispatcher advanced by 1, N/2, N-1 and N steps of that run must give the same complete schedule. Case = one (state, rule) evaluation or one solver run; non-trivial = state "
     "with >= 2 available operations."
 )
 ASSUMPTIONS = [
